@@ -295,3 +295,29 @@ func HarnessOwnStep() {
 	vCover(err != nil, "conflict reachable")
 	vCover(err == nil && redeploy, "redeploy reachable")
 }
+
+// HarnessOwnRace (T2): two concurrent installs of conflicting services: exactly one succeeds, for every interleaving.
+func HarnessOwnRace() {
+	vT2(vParam("preemptions", 2), 4)
+	vFixMapOrderType("requestServiceMap")
+	vSortMode = 1
+	r := NewRouter("/state")
+	h := vString("host", 2)
+	a := &Service{name: "a", options: ServiceOptions{Hosts: []string{h}, PathPrefixes: []string{"/"}}, pauseController: NewPauseController()}
+	b := &Service{name: "b", options: ServiceOptions{Hosts: []string{h}, PathPrefixes: []string{"/"}}, pauseController: NewPauseController()}
+	var ea, eb error
+	go func() { ea = r.installService(a) }()
+	go func() { eb = r.installService(b) }()
+	vJoinAll()
+	vAssert((ea == nil) != (eb == nil), "race: of two concurrent deploys for the same pair exactly one succeeds")
+	vAssert(ea == nil || ea == ErrorHostInUse, "race: loser gets the conflict error")
+	vAssert(eb == nil || eb == ErrorHostInUse, "race: loser gets the conflict error")
+	winner := a
+	if ea != nil {
+		winner = b
+	}
+	vAssert(r.services.Get(winner.name) == winner && len(r.services.services) == 1, "race: only the winner is installed")
+	vAssert(vRaceCount() == 0, "race: no data race")
+	vCover(ea == nil, "a wins reachable")
+	vCover(eb == nil, "b wins reachable")
+}
